@@ -69,6 +69,36 @@ macro_rules! transform_at { ($name:ident, $table:ident, $i:expr) => {
 // @ob name=c_transform_pos3 tier=thorough cfg=soft props=C07,C20 kind=bounded bound="block = unit_3(v), v symbolic" fn=kuznyechik::big_soft::backends::transform timeout=3600
 transform_at!(c_transform_pos3, ENC_TABLE, 3);
 
+// ... and concretely for EVERY byte position, every byte value and both real tables, the other fifteen bytes zero (2 x 4096
+// blocks, kind=exhaustive over these): transform(unit_i(v), T) = XOR_j T[j][unit_i(v)_j], checked in the equivalent form
+// transform(0) = XOR_j T[j][0] and transform(unit_i(v)) ^ transform(0) = T[i][v] ^ T[i][0].  This pins the reinterpretation of
+// the byte table as [[u128; 256]; 16] (offsets, endianness) at every entry of both tables; that the sixteen positions of
+// an arbitrary block are treated independently is the loop `res ^= table[i][block[i]]` itself (not machine-checked).
+macro_rules! transform_units { ($name:ident, $table:ident) => {
+    #[kani::proof]
+    #[kani::unwind(257)]
+    fn $name() {
+        let t0 = transform(0, &$table);
+        assert!(t0 == spec_transform_table(0, &$table));
+        let mut i = 0;
+        while i < 16 {
+            let w0 = word(&entry(&$table, i, 0));
+            let mut v = 0;
+            while v < 256 {
+                let mut b = [0u8; 16];
+                b[i] = v as u8;
+                assert!(transform(word(&b), &$table) ^ t0 == word(&entry(&$table, i, v as u8)) ^ w0);
+                v += 1;
+            }
+            i += 1;
+        }
+    }
+}; }
+// EXPERIMENT ob name=c_transform_units_enc cfg=soft
+transform_units!(c_transform_units_enc, ENC_TABLE);
+// EXPERIMENT ob name=c_transform_units_dec cfg=soft
+transform_units!(c_transform_units_dec, DEC_TABLE);
+
 // @ob name=c_sub_bytes cfg=soft props=C07,C20 fn=kuznyechik::big_soft::backends::sub_bytes timeout=300
 #[kani::proof]
 #[kani::unwind(17)]
